@@ -73,6 +73,7 @@ pub struct ScenN<const N: usize> {
     dir: PathBuf,
     data: HashMap<Vec<u8>, (usize, u64)>,
     dead: Option<String>,
+    keys: std::collections::BTreeSet<String>,
 }
 
 fn parse_meta(s: &str) -> Option<Option<Meta>> {
@@ -115,7 +116,7 @@ impl<const N: usize> ScenN<N> {
                 .build()
                 .unwrap()
         };
-        ScenN { rt, st: None, cfg, dir, data: HashMap::new(), dead: None }
+        ScenN { rt, st: None, cfg, dir, data: HashMap::new(), dead: None, keys: Default::default() }
     }
 
     fn builder(&self) -> Builder {
@@ -169,6 +170,204 @@ impl<const N: usize> ScenN<N> {
         }
     }
 
+    /// answers of every query for every key seen so far (and one absent key)
+    fn collect_answers(&mut self) -> Vec<(String, String)> {
+        let mut keys: Vec<String> = self.keys.iter().cloned().collect();
+        keys.push("ee".repeat(N));
+        let mut out = Vec::new();
+        for k in keys {
+            for q in ["r", "c", "ram", "ra"] {
+                let cmd = format!("{} {}", q, k);
+                let o = self.exec(&cmd);
+                out.push((cmd, o));
+            }
+            for m in ["e", "m:01", "m:02ff"] {
+                let cmd = format!("rw {} {}", k, m);
+                let o = self.exec(&cmd);
+                out.push((cmd, o));
+            }
+        }
+        let o = self.exec("counts");
+        // next_blob_id and blob layout may legitimately differ after a reopen; compare the record total only
+        let rc = o.split_whitespace().find(|t| t.starts_with("rc=")).unwrap_or("rc=?").to_string();
+        out.push(("counts".into(), rc));
+        out
+    }
+
+    fn max_id_in_dir(dir: &Path) -> Option<usize> {
+        let mut best = None;
+        let mut scan = |d: &Path| {
+            if let Ok(rd) = std::fs::read_dir(d) {
+                for e in rd.flatten() {
+                    let name = e.file_name().to_string_lossy().to_string();
+                    let parts: Vec<&str> = name.split('.').collect();
+                    if parts.len() == 3 && parts[2] == "blob" {
+                        if let Ok(id) = parts[1].parse::<usize>() {
+                            best = best.max(Some(id));
+                        }
+                    }
+                }
+            }
+        };
+        scan(dir);
+        scan(&dir.join("corrupted"));
+        best
+    }
+
+    fn copy_dir(from: &Path, to: &Path) {
+        let _ = std::fs::remove_dir_all(to);
+        std::fs::create_dir_all(to).unwrap();
+        for e in std::fs::read_dir(from).unwrap().flatten() {
+            let p = e.path();
+            if p.is_dir() {
+                Self::copy_dir(&p, &to.join(e.file_name()));
+            } else {
+                std::fs::copy(&p, to.join(e.file_name())).unwrap();
+            }
+        }
+    }
+
+    /// apply one damage pattern to an index file; returns false if the pattern does not apply
+    fn damage_index(path: &Path, kind: &str) -> bool {
+        let data = match std::fs::read(path) {
+            Ok(d) => d,
+            Err(_) => return false,
+        };
+        let parts: Vec<&str> = kind.split(':').collect();
+        let arg = parts.get(1).and_then(|x| x.parse::<i64>().ok()).unwrap_or(0);
+        let mut d = data.clone();
+        match parts[0] {
+            "rm" => {
+                let _ = std::fs::remove_file(path);
+                return true;
+            }
+            "trunc" => {
+                if (arg as usize) >= d.len() {
+                    return false;
+                }
+                d.truncate(arg as usize);
+            }
+            "cut" => {
+                if (arg as usize) > d.len() {
+                    return false;
+                }
+                let n = d.len() - arg as usize;
+                d.truncate(n);
+            }
+            "hdronly" => d.truncate(83.min(d.len())),
+            "unwritten" => {
+                if d.len() < 83 {
+                    return false;
+                }
+                d[72] &= !1u8;
+            }
+            "stale" | "bigger" => {
+                if d.len() < 83 {
+                    return false;
+                }
+                let mut b = [0u8; 8];
+                b.copy_from_slice(&d[75..83]);
+                let v = u64::from_le_bytes(b);
+                let nv = if parts[0] == "stale" { v.saturating_sub(arg as u64) } else { v + arg as u64 };
+                d[75..83].copy_from_slice(&nv.to_le_bytes());
+            }
+            _ => return false,
+        }
+        std::fs::write(path, d).unwrap();
+        true
+    }
+
+    /// `dmgsweep <kinds|lens:<step>|bounds> [lazy]`: close, then for every index file and every damage pattern
+    /// reopen a damaged copy of the directory and compare all answers with those before the close
+    fn dmgsweep(&mut self, toks: &[&str]) -> String {
+        let mode = toks.get(1).copied().unwrap_or("kinds");
+        let lazy = toks.get(2).copied() == Some("lazy");
+        let before = self.collect_answers();
+        if let Some(st) = self.st.take() {
+            let r = self.rt.block_on(async { tokio::time::timeout(Duration::from_secs(60), st.close()).await });
+            if !matches!(r, Ok(Ok(()))) {
+                return "err close".into();
+            }
+        }
+        let orig = self.dir.clone();
+        let mut indexes: Vec<(PathBuf, u64)> = Vec::new();
+        for e in std::fs::read_dir(&orig).unwrap().flatten() {
+            let p = e.path();
+            if p.extension().map_or(false, |x| x == "index") {
+                indexes.push((p.clone(), e.metadata().map(|m| m.len()).unwrap_or(0)));
+            }
+        }
+        indexes.sort();
+        let mut n = 0usize;
+        let mut bad: Option<String> = None;
+        let copy = orig.with_file_name(format!("{}-dmg", orig.file_name().unwrap().to_string_lossy()));
+        'outer: for (ipath, isize) in &indexes {
+            let mut kinds: Vec<String> = Vec::new();
+            match mode {
+                "kinds" => {
+                    for k in ["rm", "hdronly", "unwritten", "stale:1", "stale:70", "bigger:1", "cut:1", "trunc:0", "trunc:82", "trunc:84"] {
+                        kinds.push(k.to_string());
+                    }
+                    kinds.push(format!("cut:{}", isize / 2));
+                    kinds.push(format!("cut:{}", 61.min(*isize)));
+                }
+                m if m.starts_with("lens:") => {
+                    let step: u64 = m[5..].parse().unwrap_or(1).max(1);
+                    let mut l = 0;
+                    while l < *isize {
+                        kinds.push(format!("trunc:{}", l));
+                        l += step;
+                    }
+                }
+                _ => return "bad-op".into(),
+            }
+            for k in kinds {
+                Self::copy_dir(&orig, &copy);
+                let target = copy.join(ipath.file_name().unwrap());
+                if !Self::damage_index(&target, &k) {
+                    continue;
+                }
+                n += 1;
+                self.dir = copy.clone();
+                let max_id = Self::max_id_in_dir(&copy);
+                let r = self.open(lazy);
+                if r != "ok" {
+                    bad = Some(format!("{} {}: init {}", ipath.file_name().unwrap().to_string_lossy(), k, r));
+                    self.dir = orig.clone();
+                    break 'outer;
+                }
+                let after = self.collect_answers();
+                let next = self.st.as_ref().map(|s| s.next_blob_id()).unwrap_or(0);
+                if let Some(st) = self.st.take() {
+                    let _ = self.rt.block_on(async { tokio::time::timeout(Duration::from_secs(60), st.close()).await });
+                }
+                self.dir = orig.clone();
+                if let Some(m) = max_id {
+                    if next <= m {
+                        bad = Some(format!("{} {}: next_blob_id {} not above max id {}", ipath.file_name().unwrap().to_string_lossy(), k, next, m));
+                        break 'outer;
+                    }
+                }
+                for (b, a) in before.iter().zip(after.iter()) {
+                    if b != a {
+                        bad = Some(format!("{} {}: `{}` before=[{}] after=[{}]", ipath.file_name().unwrap().to_string_lossy(), k, b.0, b.1, a.1));
+                        break 'outer;
+                    }
+                }
+            }
+        }
+        let _ = std::fs::remove_dir_all(&copy);
+        self.dir = orig;
+        let r = self.open(lazy);
+        if r != "ok" {
+            return format!("err reopen {}", r);
+        }
+        match bad {
+            None => format!("sweep ok n={}", n),
+            Some(b) => format!("sweep bad {}", b),
+        }
+    }
+
     fn key(s: &str) -> Option<ArrayKey<N>> {
         let b = hex_bytes(s)?;
         if b.len() != N {
@@ -191,6 +390,12 @@ impl<const N: usize> ScenN<N> {
         let toks: Vec<&str> = line.split_whitespace().collect();
         if toks.is_empty() {
             return "bad-op".into();
+        }
+        if (toks[0] == "w" || toks[0] == "d") && toks.len() > 1 {
+            self.keys.insert(toks[1].to_string());
+        }
+        if toks[0] == "dmgsweep" {
+            return self.dmgsweep(&toks);
         }
         if toks[0] == "restart" || toks[0] == "close" {
             let lazy = toks.len() > 1 && toks[1] == "lazy";
